@@ -1,7 +1,8 @@
 (* Props/C01.v — property C01: event onsets fall on the exact tick of their cumulative duration, drift-free.
    All statements are about the executable scheduler model (Sched/Model.v); lemmas in Sched/OnsetProofs.v
    and Sched/TimeProofs.v.  tau = tick length, N ev k = exact sum of the first k durations (all in units). *)
-From Isobar Require Import Base.Prelude Base.Round8 Sched.Model Sched.OnsetProofs Sched.TimeProofs Sched.Obs Sched.Retick Sched.RetickProofs.
+From Isobar Require Import Base.Prelude Base.Round8 Sched.Model Sched.OnsetProofs Sched.TimeProofs Sched.Obs Sched.Retick Sched.RetickProofs
+  Sched.TickFrame Sched.ReachProofs Sched.ClockStepProofs.
 
 (* Main statement.  A track on which start() has just run (next_event_time = current_time), unbounded
    event count, whose stream delivers ev 0, ev 1, ..., at least L events, each lasting >= one tick (on or
@@ -271,3 +272,60 @@ Proof.
   split; [intros [|[|[|k]]] Hk; try (exfalso; lia); intros j; reflexivity|].
   split; reflexivity.
 Qed.
+
+(* ------------------------------------------------------------------------------------------------------------
+   Ticks that are cut short by an exception (lemmas in Sched/ClockStepProofs.v).  Track.tick advances the track's clock in
+   its last statement; a device fault, a failing pattern or (in the model: never, perform_event swallows it) a callback
+   fault that leaves Track.tick skips that statement.  C01_timeline_time speaks about the timeline's clock only, and
+   C01_onsets / C01_retick_onsets about a track whose ticks all run to the end.  What ties them together in EVERY history -
+   any number of tracks, callbacks that schedule / update / unschedule / clear, faults in tolerant or intolerant mode - is: *)
+
+(* One tick.  If Timeline.tick completes, then its clock has advanced by one tick and every track that was started before
+   the tick and is still scheduled after it has had ITS clock advanced by exactly one tick in that tick (and is still
+   started).  So no scheduled track ever carries a tick that was cut short: the track whose tick raised has been removed
+   (tolerant mode), or the tick did not complete (intolerant mode: the exception left Timeline.tick; out of fuel). *)
+Theorem C01_survivors_advance : forall cfg tl, wf tl ->
+  let '(tl', _, res) := tl_tick cfg tl in
+  res = ROk ->
+  now tl' = now tl + tau cfg /\ wf tl' /\ (next_id tl <= next_id tl')%nat /\
+  forall id tr tr', find_track id (tracks tl) = Some tr -> t_started tr = true ->
+    find_track id (tracks tl') = Some tr' -> t_cur tr' = t_cur tr + tau cfg /\ t_started tr' = true.
+Proof. exact tick_advances_survivors. Qed.
+Print Assumptions C01_survivors_advance.
+
+(* Histories.  In any state a performance can reach (any history h from the empty timeline) and for any further history
+   whose ticks all complete: a track that is started now and is still scheduled at the end has advanced exactly as much as
+   the timeline, i.e. Track.current_time = Timeline.current_time - start throughout its life, and that amount is
+   (number of ticks) * tau.  Every onset theorem above therefore applies to every track that survives, with the timeline's
+   tick count as its own. *)
+Theorem C01_clocks_in_step : forall cfg h ops,
+  let tl := run_state cfg tl0 h in
+  all_ticks_ok cfg tl ops = true ->
+  forall id tr tr', find_track id (tracks tl) = Some tr -> t_started tr = true ->
+  find_track id (tracks (run_state cfg tl ops)) = Some tr' ->
+  t_cur tr' - t_cur tr = now (run_state cfg tl ops) - now tl
+  /\ t_cur tr' - t_cur tr = ticks_in ops * tau cfg /\ t_started tr' = true.
+Proof.
+  intros cfg h ops tl OK id tr tr' F St F'.
+  assert (W : wf tl) by (apply (reachable_wf cfg); apply history_reachable).
+  destruct (clocks_in_step cfg ops tl W OK id tr tr' F St F') as [C S].
+  split; [exact C|]. split; [|exact S]. rewrite C, (run_now cfg ops tl OK). lia.
+Qed.
+Print Assumptions C01_clocks_in_step.
+
+(* non-vacuity: tolerant mode, the device refuses its second call (index 1), which is the first note of the second of two
+   tracks: that track's tick is cut short and it is removed in that very tick; all ticks complete; the first track is still
+   scheduled after 5 ticks and its clock reads what the timeline's reads (15 units), having played on ticks 0 and 4. *)
+Definition ex4_cfg : config := mkConfig 3 [] 0 0 false true (Some 1%nat) 8.
+Definition ex4_tl : timeline :=
+  run_state ex4_cfg tl0
+    [OSchedule (mkStream [REvent (ex_ev 0); REvent (ex_ev 1)] 0 true) None None None true None true;
+     OSchedule (mkStream [REvent (ex_ev 2)] 0 true) None None None true None true].
+Example C01_clocks_in_step_nonvacuous :
+  map t_id (tracks ex4_tl) = [0; 1]%nat /\ forallb t_started (tracks ex4_tl) = true
+  /\ all_ticks_ok ex4_cfg ex4_tl (repeat OTick 5) = true
+  /\ map (fun o => (fst (fst o), snd o)) (run ex4_cfg ex4_tl (repeat OTick 5))
+     = [([CNoteOn 60 64 0], [0%nat]); ([], [0%nat]); ([CNoteOff 60 0], [0%nat]); ([], [0%nat]); ([CNoteOn 61 64 0], [0%nat])]
+  /\ map t_cur (tracks (run_state ex4_cfg ex4_tl (repeat OTick 5))) = [15]
+  /\ now (run_state ex4_cfg ex4_tl (repeat OTick 5)) = 15.
+Proof. repeat split. Qed.
